@@ -523,6 +523,155 @@ theorem createTopic_refines (msg : aoltypes.MsgCreateTopicRequest) (hwf : WF w) 
             exact wf_set_topic _ (wf_set_owner _ hwf _ _) _ _
           · simp
 
+theorem u64sub_one (a : Nat) : Go.u64sub a 1 = decU64 a := by
+  unfold Go.u64sub decU64 Go.two64; omega
+
+theorem u64add_one (a : Nat) : Go.u64add a 1 = wrap64 (a + 1) := by
+  unfold Go.u64add wrap64 Go.two64; rfl
+
+theorem bool_false_of_not {b : Bool} (h : ¬ b = true) : b = false := by cases b <;> simp_all
+
+theorem readTopic_eq (tk : Bytes) :
+    toTopic (readG aoltypes.Topic (w.store "aol") [1] tk) = ((abs w).topics.get tk).getD {} :=
+  conv_read toTopic (w.store "aol") [1] tk
+
+theorem addWriter_refines (msg : aoltypes.MsgAddWriterRequest) (hwf : WF w) :
+    Sim w (aolkeeper.msgServer.AddWriter bech (some msg) w)
+      (Aol.handle (toCodec bech) w.blockTimeNano (abs w)
+        (.addWriter msg.TopicName msg.Moniker msg.Description msg.WriterAddress msg.OwnerAddress))
+      (fun _ r => r = .empty) := by
+  unfold aolkeeper.msgServer.AddWriter Aol.handle
+  simp only [Go.deref, id, P.ok_bind, acc_eq, Aol.decAddr]
+  rcases opt_cases ((toCodec bech).dec msg.OwnerAddress) with hd | ⟨o, hd⟩
+  · simp only [hd, Outcome.err_bind, Sim]; rfl
+  · simp only [hd, Outcome.ok_bind, Option.isNone_none, Bool.not_true, Bool.false_eq_true, if_false]
+    rcases opt_cases ((toCodec bech).dec msg.WriterAddress) with hdw | ⟨a, hdw⟩
+    · simp only [hdw, Outcome.err_bind, Sim]; rfl
+    · simp only [hdw, Outcome.ok_bind, Option.isNone_none, Bool.not_true, Bool.false_eq_true, if_false, hasTopic_run,
+        Aol.topicKey, Aol.mustEncode]
+      rcases opt_cases (CompKey.encode [o, msg.TopicName]) with htk | ⟨tk, htk⟩
+      · simp only [htk, Outcome.panic_bind, P.panic_bind, Sim]; exact ⟨_, rfl⟩
+      · simp only [htk, P.ok_bind, Outcome.ok_bind]
+        have hhas : (abs w).topics.has tk = (w.store "aol").has ([1] ++ tk) := table_has _ _ _ _
+        by_cases hh : (w.store "aol").has ([1] ++ tk) = true
+        · simp only [hhas, hh, Bool.not_true, Bool.false_eq_true, if_false, hasWriter_run, Aol.writerKey, Aol.mustEncode]
+          rcases opt_cases (CompKey.encode [o, msg.TopicName, a]) with hwk | ⟨wk, hwk⟩
+          · simp only [hwk, Outcome.panic_bind, P.panic_bind, Sim]; exact ⟨_, rfl⟩
+          · simp only [hwk, P.ok_bind, Outcome.ok_bind]
+            have hhasw : (abs w).writers.has wk = (w.store "aol").has ([2] ++ wk) := table_has _ _ _ _
+            by_cases hw : (w.store "aol").has ([2] ++ wk) = true
+            · simp only [hhasw, hw, if_true, Sim]; rfl
+            · have hw' := bool_false_of_not hw
+              simp only [hhasw, hw', Bool.false_eq_true, if_false, getTopic_run bech w _ _ hwf, htk, P.ok_bind,
+                aoltypes.Topic.IncreaseTotalWriters, P.pure_eq, Outcome.pure_eq, setTopic_run, setWriter_run, hwk, Sim]
+              refine ⟨default, _, rfl, ?_, ?_, trivial, ?_⟩
+              · unfold abs
+                simp only [store_setStore, time_setStore, Go.blockTimeUnixNano]
+                rw [absMap_set_writer _ (Map.sorted_set _ _ _ hwf.sorted), absMap_set_topic _ hwf.sorted]
+                have hread := readTopic_eq w tk
+                simp only [abs] at hread
+                simp only [toTopic, toWriter] at hread ⊢
+                rw [← hread]
+                rfl
+              · unfold WF
+                simp only [store_setStore]
+                exact wf_set_writer _ (wf_set_topic _ hwf _ _) _ _
+              · simp
+        · have hh' := bool_false_of_not hh
+          simp only [hhas, hh', Bool.not_false, if_true, Sim]; rfl
+
+theorem deleteWriter_refines (msg : aoltypes.MsgDeleteWriterRequest) (hwf : WF w) :
+    Sim w (aolkeeper.msgServer.DeleteWriter bech (some msg) w)
+      (Aol.handle (toCodec bech) w.blockTimeNano (abs w)
+        (.deleteWriter msg.TopicName msg.WriterAddress msg.OwnerAddress))
+      (fun _ r => r = .empty) := by
+  unfold aolkeeper.msgServer.DeleteWriter Aol.handle
+  simp only [Go.deref, id, P.ok_bind, acc_eq, Aol.decAddr]
+  rcases opt_cases ((toCodec bech).dec msg.OwnerAddress) with hd | ⟨o, hd⟩
+  · simp only [hd, Outcome.err_bind, Sim]; rfl
+  · simp only [hd, Outcome.ok_bind, Option.isNone_none, Bool.not_true, Bool.false_eq_true, if_false]
+    rcases opt_cases ((toCodec bech).dec msg.WriterAddress) with hdw | ⟨a, hdw⟩
+    · simp only [hdw, Outcome.err_bind, Sim]; rfl
+    · simp only [hdw, Outcome.ok_bind, Option.isNone_none, Bool.not_true, Bool.false_eq_true, if_false, hasWriter_run,
+        Aol.writerKey, Aol.mustEncode]
+      rcases opt_cases (CompKey.encode [o, msg.TopicName, a]) with hwk | ⟨wk, hwk⟩
+      · simp only [hwk, Outcome.panic_bind, P.panic_bind, Sim]; exact ⟨_, rfl⟩
+      · simp only [hwk, P.ok_bind, Outcome.ok_bind]
+        have hhasw : (abs w).writers.has wk = (w.store "aol").has ([2] ++ wk) := table_has _ _ _ _
+        by_cases hw : (w.store "aol").has ([2] ++ wk) = true
+        · simp only [hhasw, hw, Bool.not_true, Bool.false_eq_true, if_false, getTopic_run bech w _ _ hwf,
+            Aol.topicKey, Aol.mustEncode]
+          rcases opt_cases (CompKey.encode [o, msg.TopicName]) with htk | ⟨tk, htk⟩
+          · simp only [htk, Outcome.panic_bind, P.panic_bind, Sim]; exact ⟨_, rfl⟩
+          · simp only [htk, P.ok_bind, Outcome.ok_bind, aoltypes.Topic.DecreaseTotalWriters, P.pure_eq,
+              Outcome.pure_eq, setTopic_run, removeWriter_run, hwk, Sim]
+            refine ⟨default, _, rfl, ?_, ?_, trivial, ?_⟩
+            · unfold abs
+              simp only [store_setStore]
+              rw [absMap_del_writer, absMap_set_topic _ hwf.sorted]
+              have hread := readTopic_eq w tk
+              simp only [abs] at hread
+              simp only [toTopic, u64sub_one] at hread ⊢
+              rw [← hread]
+            · unfold WF
+              simp only [store_setStore]
+              exact wf_del _ (wf_set_topic _ hwf _ _) _
+            · simp
+        · have hw' := bool_false_of_not hw
+          simp only [hhasw, hw', Bool.not_false, if_true, Sim]; rfl
+
+theorem addRecord_refines (msg : aoltypes.MsgAddRecordRequest) (hwf : WF w) :
+    Sim w (aolkeeper.msgServer.AddRecord bech (some msg) w)
+      (Aol.handle (toCodec bech) w.blockTimeNano (abs w)
+        (.addRecord msg.TopicName msg.Key msg.Value msg.WriterAddress msg.OwnerAddress msg.FeePayerAddress))
+      (fun v r => r = .addRecord v.OwnerAddress v.TopicName v.Offset) := by
+  unfold aolkeeper.msgServer.AddRecord Aol.handle
+  simp only [Go.deref, id, P.ok_bind, acc_eq, Aol.decAddr]
+  rcases opt_cases ((toCodec bech).dec msg.OwnerAddress) with hd | ⟨o, hd⟩
+  · simp only [hd, Outcome.err_bind, Sim]; rfl
+  · simp only [hd, Outcome.ok_bind, Option.isNone_none, Bool.not_true, Bool.false_eq_true, if_false]
+    rcases opt_cases ((toCodec bech).dec msg.WriterAddress) with hdw | ⟨a, hdw⟩
+    · simp only [hdw, Outcome.err_bind, Sim]; rfl
+    · simp only [hdw, Outcome.ok_bind, Option.isNone_none, Bool.not_true, Bool.false_eq_true, if_false, hasTopic_run,
+        Aol.topicKey, Aol.mustEncode]
+      rcases opt_cases (CompKey.encode [o, msg.TopicName]) with htk | ⟨tk, htk⟩
+      · simp only [htk, Outcome.panic_bind, P.panic_bind, Sim]; exact ⟨_, rfl⟩
+      · simp only [htk, P.ok_bind, Outcome.ok_bind]
+        have hhas : (abs w).topics.has tk = (w.store "aol").has ([1] ++ tk) := table_has _ _ _ _
+        by_cases hh : (w.store "aol").has ([1] ++ tk) = true
+        · simp only [hhas, hh, Bool.not_true, Bool.false_eq_true, if_false, hasWriter_run, Aol.writerKey, Aol.mustEncode]
+          rcases opt_cases (CompKey.encode [o, msg.TopicName, a]) with hwk | ⟨wk, hwk⟩
+          · simp only [hwk, Outcome.panic_bind, P.panic_bind, Sim]; exact ⟨_, rfl⟩
+          · simp only [hwk, P.ok_bind, Outcome.ok_bind]
+            have hhasw : (abs w).writers.has wk = (w.store "aol").has ([2] ++ wk) := table_has _ _ _ _
+            by_cases hw : (w.store "aol").has ([2] ++ wk) = true
+            · have hread := readTopic_eq w tk
+              have hoff : (readG aoltypes.Topic (w.store "aol") [1] tk).TotalRecords =
+                  (((abs w).topics.get tk).getD {}).totalRecords := congrArg Aol.Topic.totalRecords hread
+              simp only [hhasw, hw, Bool.not_true, Bool.false_eq_true, if_false, getTopic_run bech w _ _ hwf, htk,
+                P.ok_bind, aoltypes.Topic.NextRecordOffset, aoltypes.Topic.IncreaseTotalRecords, P.pure_eq,
+                Outcome.pure_eq, setTopic_run, setRecord_run, Aol.recordKey, Aol.mustEncode, hoff]
+              rcases opt_cases (CompKey.encode [o, msg.TopicName, be64 (((abs w).topics.get tk).getD {}).totalRecords])
+                with hrk | ⟨rk, hrk⟩
+              · simp only [hrk, Outcome.panic_bind, P.panic_bind, Sim]; exact ⟨_, rfl⟩
+              · simp only [hrk, P.ok_bind, Outcome.ok_bind, Sim]
+                refine ⟨_, _, rfl, ?_, ?_, rfl, ?_⟩
+                · unfold abs
+                  simp only [store_setStore, time_setStore, Go.blockTimeUnixNano]
+                  rw [absMap_set_record _ (Map.sorted_set _ _ _ hwf.sorted), absMap_set_topic _ hwf.sorted]
+                  simp only [abs] at hread hoff
+                  simp only [toTopic, toRecord] at hread ⊢
+                  rw [← hread]
+                  rfl
+                · unfold WF
+                  simp only [store_setStore]
+                  exact wf_set_record _ (wf_set_topic _ hwf _ _) _ _
+                · simp
+            · have hw' := bool_false_of_not hw
+              simp only [hhasw, hw', Bool.not_false, if_true, Sim]; rfl
+        · have hh' := bool_false_of_not hh
+          simp only [hhas, hh', Bool.not_false, if_true, Sim]; rfl
+
 end handlers
 
 end Panacea.Refine.Aol
